@@ -664,6 +664,8 @@ def gen_reg(rng, tier):
         m += 1
         script.append(["log", m, "main"])
         out.append({"script": script, "fails": [k for k in range(1, m + 1) if rng.random() < 0.25], "hold": rng.random() < 0.6})
+        if len(out) % 3 == 0:
+            out[-1]["twin"] = True
     # a long backlog behind a stalled destination (nothing offered may be dropped however many are waiting), and a
     # destination that stays stalled for seconds after stopService() was called (its result must not fire before the
     # backlog has been written, however long that takes)
@@ -709,6 +711,9 @@ def impl_reg(case):
     writer = lw.ThreadedWriter(destination, Reactor())
     caller_threads = [threading.current_thread()]
     errors = []
+    # a second, independent writer alive in the same process at the same time (e.g. one per log file)
+    calls2 = []
+    writer2 = lw.ThreadedWriter(lambda msg: calls2.append(msg.get("n")), Reactor()) if case.get("twin") else None
 
     def log(n):
         try:
@@ -720,6 +725,8 @@ def impl_reg(case):
         for op in case["script"]:
             if op[0] == "start":
                 release[0] = threading.Event()
+                if writer2 is not None:
+                    writer2.startService()
                 writer.startService()
                 steps.append(["start", any(d is writer for d in orig._destinations), bool(writer.running)])
             elif op[0] == "stop":
@@ -735,6 +742,10 @@ def impl_reg(case):
                     release[0].set()
                     h = writer.stopService()
                 done = h.done.wait(30 if case.get("burst") else 10)
+                if writer2 is not None:
+                    h2 = writer2.stopService()
+                    if not h2.done.wait(10):
+                        errors.append("the second writer's stopService did not complete")
                 with lock:
                     steps.append(["stop", any(d is writer for d in orig._destinations), bool(writer.running), done,
                                   len(calls), type(h.error).__name__ if h.error is not None else None, early])
@@ -750,8 +761,10 @@ def impl_reg(case):
     finally:
         if any(d is writer for d in orig._destinations):
             orig.remove(writer)
+        if writer2 is not None and any(d is writer2 for d in orig._destinations):
+            orig.remove(writer2)
     idx = {}
-    return {"calls": [[n, idx.setdefault(id(t), len(idx)), any(t is c for c in caller_threads), at] for n, t, at in calls],
+    return {"calls2": calls2 if writer2 is not None else None, "calls": [[n, idx.setdefault(id(t), len(idx)), any(t is c for c in caller_threads), at] for n, t, at in calls],
             "steps": steps, "errors": errors}
 
 
@@ -786,6 +799,8 @@ def oracle_reg(case, obs):
             cycle.append(op[1])
     if [c[0] for c in obs["calls"]] != want:
         return "destination was passed %r, offered between start and stop: %r" % ([c[0] for c in obs["calls"]], want)
+    if obs.get("calls2") is not None and obs["calls2"] != want:
+        return "a second writer running at the same time passed %r to its destination; it was offered %r" % (obs["calls2"], want)
     if any(c[2] for c in obs["calls"]):
         return "the destination was called on a caller's thread"
     pos = 0
